@@ -15,6 +15,7 @@ EXPLANATION = (
     'statically constant branch test such as comparing an uncalled method with a literal), the adnominal branch '
     'distinguishes two labels and the adverbial branch three, each depending on the shape of the argument.'
     ' The dispatch fold also checks what the combinators are applied to (the inputs themselves).'
+    ' Third round: the root list SSEQ tests against equals the default --root-cats of the Japanese command line (R4.2 root-list); Functor.__xor__ as used by scan.'
 )
 TRUSTED = ['CPython ast', 'schema table in sa/rules_grammar.py (from the property statement)', 'independent pattern parser sa/symcat.py',
            'class table of depccg/cat.py (which names are methods, which are properties)']
@@ -178,6 +179,121 @@ def _parents(n):
     return parents(n)
 
 
+def _expand_strings(mod, node, env):
+    """the strings a constant expression over literal loops denotes, as a list (one per evaluation), or None"""
+    if isinstance(node, ast.Constant) and isinstance(node.value, str):
+        return [node.value]
+    if isinstance(node, ast.Name) and node.id in env:
+        return [env[node.id]]
+    if isinstance(node, ast.JoinedStr):
+        out = ['']
+        for v in node.values:
+            if isinstance(v, ast.Constant):
+                part = [str(v.value)]
+            elif isinstance(v, ast.FormattedValue) and v.format_spec is None and v.conversion == -1:
+                part = _expand_strings(mod, v.value, env)
+                if part is None:
+                    return None
+            else:
+                return None
+            out = [a + b for a in out for b in part]
+        return out
+    if isinstance(node, ast.BinOp) and isinstance(node.op, ast.Add):
+        a, b = _expand_strings(mod, node.left, env), _expand_strings(mod, node.right, env)
+        return None if a is None or b is None else [x + y for x in a for y in b]
+    return None
+
+
+def _category_texts(mod, node, env=None, depth=0):
+    """texts of a module-level list of Category.parse(<constant text>) entries: a display, a comprehension over literal
+    tables, concatenations of those; None when it cannot be read off the source"""
+    env = env or {}
+    if depth > 6:
+        return None
+    if isinstance(node, (ast.List, ast.Tuple)):
+        out = []
+        for e in node.elts:
+            if isinstance(e, ast.Starred):
+                sub = _category_texts(mod, e.value, env, depth + 1)
+            elif isinstance(e, ast.Call) and src(e.func) in ('Category.parse', 'parse') and len(e.args) == 1:
+                sub = _expand_strings(mod, e.args[0], env)
+            else:
+                sub = None
+            if sub is None:
+                return None
+            out += sub
+        return out
+    if isinstance(node, ast.BinOp) and isinstance(node.op, ast.Add):
+        a, b = _category_texts(mod, node.left, env, depth + 1), _category_texts(mod, node.right, env, depth + 1)
+        return None if a is None or b is None else a + b
+    if isinstance(node, ast.Call) and src(node.func) in ('list', 'tuple') and len(node.args) == 1:
+        return _category_texts(mod, node.args[0], env, depth + 1)
+    if isinstance(node, (ast.ListComp, ast.GeneratorExp)):
+        envs = [dict(env)]
+        for g in node.generators:
+            if g.ifs or not isinstance(g.target, ast.Name):
+                return None
+            it = g.iter
+            items = None
+            if isinstance(it, ast.Constant) and isinstance(it.value, str):
+                items = list(it.value)
+            else:
+                items = rg.const_strings(mod, it)
+            if items is None:
+                return None
+            envs = [dict(e, **{g.target.id: v}) for e in envs for v in items]
+        out = []
+        for e in envs:
+            sub = _category_texts(mod, ast.List(elts=[node.elt], ctx=ast.Load()), e, depth + 1)
+            if sub is None:
+                return None
+            out += sub
+        return out
+    if isinstance(node, ast.Name):
+        binds = [s_ for s_ in mod.tree.body if isinstance(s_, ast.Assign) and any(isinstance(t, ast.Name) and t.id == node.id for t in s_.targets)]
+        if len(binds) == 1:
+            return _category_texts(mod, binds[0].value, env, depth + 1)
+    return None
+
+
+def r_root_list(repo, rep, R='R4.2'):
+    """sentence sequencing joins two *root* categories: the list the grammar tests against is the list of categories the
+    Japanese command line allows at the root of a tree (two copies of one table; SSEQ over anything else builds a
+    'sentence sequence' out of non-sentences, or misses one)."""
+    mod = repo.module(rg.JA)
+    binds = [s_ for s_ in mod.tree.body if isinstance(s_, ast.Assign) and any(isinstance(t, ast.Name) and t.id == '_possible_root_categories' for t in s_.targets)]
+    if len(binds) != 1:
+        raise AnalysisError('%s: expected one module-level binding of _possible_root_categories, found %d' % (mod.rel, len(binds)))
+    texts = _category_texts(mod, binds[0].value)
+    if texts is None:
+        raise AnalysisError('%s:%d the entries of _possible_root_categories cannot be read off the source' % (mod.rel, binds[0].lineno))
+    am = repo.module('depccg/argparse.py')
+    defaults = []
+    for n in ast.walk(am.tree):
+        if isinstance(n, ast.Call) and isinstance(n.func, ast.Attribute) and n.func.attr == 'add_argument' and n.args \
+                and isinstance(n.args[0], ast.Constant) and n.args[0].value == '--root-cats':
+            for kw in n.keywords:
+                if kw.arg == 'default':
+                    v = _expand_strings(am, kw.value, {})
+                    if v is not None and len(v) == 1 and 'mod=' in v[0]:        # the Japanese one: feature triples
+                        defaults.append((n.lineno, v[0].split('|')))
+    if len(defaults) != 1:
+        # the command line is outside this property's anchors: when its table cannot be located the comparison is
+        # recorded as not made rather than guessed
+        rep.note('root-list', 'not compared: %d Japanese --root-cats defaults found in depccg/argparse.py' % len(defaults))
+        return
+    line, cli = defaults[0]
+    w = '%s:%d _possible_root_categories' % (mod.rel, binds[0].lineno)
+    extra = sorted(set(texts) - set(cli))
+    missing = sorted(set(cli) - set(texts))
+    rep.check(not extra and not missing, R, w, mod.rel + ':root-list',
+              'the %d categories SSEQ accepts are the %d default root categories of the Japanese command line (depccg/argparse.py:%d)' % (len(texts), len(cli), line),
+              'the root list of the grammar differs from the default root categories of the Japanese command line (depccg/argparse.py:%d): only in the grammar %s, only on the command line %s'
+              % (line, extra, missing))
+    dup = sorted({t for t in texts if texts.count(t) > 1})
+    rep.check(not dup, R, w, mod.rel + ':root-list:unique', 'no root category is listed twice', 'listed twice: %s' % dup)
+
+
 def check(repo, rep, tier):
     mod = repo.module(rg.JA)
     rep.rule('R4.1', 'schema conformance of the 10 unification-based combinators incl. slash preservation, modifier shortcut, labels, head_is_left=False, dispatch')
@@ -200,6 +316,9 @@ def check(repo, rep, tier):
     c06.r_feature_loop(repo, rep, 'R4.1')
     c06.r_feature_relations(repo, rep, 'R4.1')
     r_unary_labels(repo, rep)
+    r_root_list(repo, rep)
+    from .c13 import r_xor
+    r_xor(repo.module('depccg/cat.py'), rep, 'R4.1')     # scan() compares a twice-bound variable's two values with ^
     rep.floor('registered Japanese combinators', len(reg), 11)
     rep.floor('schema symbols produced', len({s for _, s in labels if s in rg.SCHEMAS['ja']}), 10)
     rep.note('labels', sorted(labels))
